@@ -157,6 +157,9 @@ func c04(r *core.Run) {
 		c03Cover(r)
 		c03Leaf(r)
 		c03Perm(r)
+		c03Referent(r)
+		c03TestedThenRendered(r)
+		c03FlagFamilies(r)
 		c12IVGate(r, "C03.GATE.iv", "C03.GATE.iv")
 		c03GateHoist(r)
 		c16EnumRule(r, "C03.ENUM")
